@@ -79,6 +79,8 @@ def same(a, b, leaf_eq='is', path='$'):
         return None if a.v == b.v else '%s: Meta %r != %r' % (path, a.v, b.v)
     if isinstance(a, (U.Key, U.UKey)):
         return None if a.k == b.k else '%s: key %r != %r' % (path, a.k, b.k)
+    if (ta.__module__ or '').startswith('optree'):  # PyTreeKind and friends: value objects
+        return None if a == b else '%s: %r != %r' % (path, a, b)
     if leaf_eq == 'is' and not isinstance(a, (int, str, float, bool, bytes, type)):
         return None if a is b else '%s: %s objects differ in identity' % (path, ta.__name__)
     try:
